@@ -494,6 +494,9 @@ pub fn dec_int(b: &[u8]) -> i64 {
 
 pub fn dec_float_bits(b: &[u8]) -> Option<u64> {
     match b.len() {
+        // RFC 8794 lets a zero-length float stand for 0.0; the library rejects it, and the properties that use this
+        // model say nothing either way, so the model is lenient (review R1, C10-3)
+        0 => Some(0f64.to_bits()),
         4 => Some((f32::from_be_bytes([b[0], b[1], b[2], b[3]]) as f64).to_bits()),
         8 => Some(u64::from_be_bytes([b[0], b[1], b[2], b[3], b[4], b[5], b[6], b[7]])),
         _ => None,
